@@ -65,6 +65,14 @@ def ob_tld(info):
     return []
 
 
+def ob_c12_excluded(info):
+    """a registration call in a file the default build leaves out: the file is the witness"""
+    f = _load("facts.json")
+    return [("lint %s is registered in %s, which is not part of a default build (%s): it is in the tree but in no registry" % (x.get("name") or "?", x["file"], x.get("reason", "")),
+             {"file": x["file"], "lint": x.get("name"), "reason": x.get("reason"), "concrete": True}, "excluded-registration:" + x["file"])
+            for x in (f.get("excluded_registrations") or [])]
+
+
 def ob_c02_sites(info):
     """Name the panic-capable sites that are neither discharged by a guard certificate nor in the committed review
     for their present context (Lean's all_sites_accounted decides; this mirror only names them and picks the lints
@@ -201,6 +209,7 @@ PROPS = {
                         "strings.TrimSpace is modelled on ASCII blanks"],
     },
     "C12": {
+        "obligations": [ob_c12_excluded],
         "proofs": ["ZlProofs.Props.C12"],
         "corr": ["filter"],
         "search": ["meta"],
